@@ -211,6 +211,13 @@ def apply(root, op):
                 del o.vals[i]
                 return 0
         return -1
+    if kind == 'rmtsecself':
+        _, name, idx = op
+        sec, o, _ = resolve(root, name)
+        if o is None or o.d.typ != 'sec' or not (o.d.flags & F_TITLE) or idx >= len(o.vals):
+            return -1
+        del o.vals[idx]
+        return 0
     if kind == 'rmsec':
         _, path = op
         sec, o, idx = resolve(root, path, want_sec=True)
@@ -268,6 +275,8 @@ def render(op, optloc=None):
         return 'rmnsec 0 %s %d' % (hx(op[1]), op[2])
     if kind == 'rmtsec':
         return 'rmtsec 0 %s %s' % (hx(op[1]), hx(op[2]))
+    if kind == 'rmtsecself':
+        return 'rmtsec_self 0 %s %d' % (hx(op[1]), op[2])
     if kind == 'rmsec':
         return 'rmsec 0 %s' % hx(op[1])
     raise ValueError(kind)
